@@ -23,11 +23,24 @@ def analysis(repo, ts='yes', **kw):
     return _AN[k]
 
 
+def annotate(res, an):
+    """what the front end had to adapt to on this tree (recorded in the evidence, never silently)"""
+    notes = list(getattr(an, 'renamed', []))
+    notes += ['not analysed (uninstantiated member template outside the documented API): %s' % t for t in getattr(an.prog, 'skipped_templates', [])]
+    for name, r in an.roles.items():
+        if getattr(r, 'inert', None):
+            notes.append('%s: bookkeeping members that never reach a decision / result (not container state for the behavioural rules): %s'
+                         % (name, ', '.join(sorted(r.inert))))
+    if notes:
+        res.assumptions += ['front-end adaptation: ' + x for x in notes[:12]]
+
+
 def c06(tier, repo):
     res = Result('C06', 'proof')
     an = analysis(repo)
     locks.analyse(an, res, None)
     res.incomplete += an.incomplete
+    annotate(res, an)
     res.explanation = ('Reduction (DESIGN.md 6.C06): every public method of every thread_safe::yes container performs all accesses '
                        'to mutable container state inside one critical section of this->m_lock (L1), the section is never re-taken '
                        'or taken per loop iteration, returns values only (L3), the wrapper reaches std::mutex (L4), no re-acquisition (L5). '
@@ -45,6 +58,7 @@ def c07(tier, repo):
     an = analysis(repo)
     locks.analyse(an, None, res)
     res.incomplete += an.incomplete
+    annotate(res, an)
     res.explanation = ('Lockset analysis (DESIGN.md 6.C07): for every access to a data member (or memory reached through it) on every '
                        'path of every public method, either the access is inside the critical section of this->m_lock or no '
                        'conflicting access exists in any public method; conflicts follow [res.on.data.races] / '
@@ -63,6 +77,7 @@ def c09(tier, repo):
     an = analysis(repo)
     rules_seq.rule_c09(an, res)
     res.incomplete += an.incomplete
+    annotate(res, an)
     res.explanation = ('Finite decision table (DESIGN.md 6.C09): the allow enumerators and the insert_allowed/update_allowed bodies are '
                        'constant-evaluated from the AST for all three modes; every path of every insert / insert_range body (helpers '
                        'inlined) is classified by presence x update_allowed x insert_allowed x expired and its abstract effect class '
@@ -79,6 +94,7 @@ def c19(tier, repo):
     an = analysis(repo)
     rules_seq.rule_noninterference(an, res)
     res.incomplete += an.incomplete
+    annotate(res, an)
     res.explanation = ('Write-freedom (DESIGN.md 6.C19): every path whose valuation is a peek hit, a miss, a rejected insert or an '
                        'absent-key erase has an empty abstract effect list on container state (so the state is bit-identical and every '
                        'continuation unchanged); in tlru/utlru the only permitted effects on a lookup of an expired key are the removal '
@@ -95,6 +111,7 @@ def c02(tier, repo):
     rules_seq.rule_c02(an, res)
     rules_seq.rule_c02_c03_shared_full_test(an, res, 'C02')
     res.incomplete += an.incomplete
+    annotate(res, an)
     res.explanation = ('Structural clauses of C02 (DESIGN.md 6.C02), decided on every path and loop iteration of every entry point: '
                        'R-BALANCE (counter, index, free/used partition and every auxiliary structure change by the same amount), '
                        'R-BOUND (interval argument: from 0 <= size <= capacity and the path tests, the counter stays in range after '
@@ -114,6 +131,7 @@ def c03(tier, repo):
     rules_seq.rule_c03(an, res)
     rules_seq.rule_c02_c03_shared_full_test(an, res, 'C03')
     res.incomplete += an.incomplete
+    annotate(res, an)
     res.explanation = ('R-REMOVE-LICENSE (DESIGN.md 6.C03): every index removal on every path of every entry point is licensed by its '
                        'path valuation: erase(k) of the found entry; lookup of an expired entry (tlru/utlru); clean/purge guarded by the '
                        'removed node being expired; or exactly one policy victim, before the bind, on a new-key insert whose path '
@@ -135,6 +153,7 @@ def _simple(pid, fn, explanation, assumptions, floors):
         an = analysis(repo)
         fn(an, res)
         res.incomplete += an.incomplete
+        annotate(res, an)
         res.explanation = explanation
         res.assumptions += assumptions
         res.floors = floors
